@@ -254,6 +254,12 @@ class AxisTaint:
                 # De Morgan: `not (axis is None or axis >= 0)` is `axis is not None and axis < 0`
                 c = pos_form(c)
                 t = _same_branches(t, c)
+            elif c.op == "bool" and c.opname == "or":
+                # `if axis is None or not axis < 0: A else: B` is `if axis is not None and axis < 0: B else: A`
+                from ..terms import T as _T
+
+                c = pos_form(_T("un", c.node, c.mod, opname="Not", x=c))
+                t = _swapped(t, c)
             a_, pol_ = atom(c)
             if a_ is not c:
                 c = a_
